@@ -1,0 +1,5 @@
+//go:build !verif
+
+package search
+
+func simYield(*Search, *Options) {}
